@@ -112,6 +112,19 @@ fn fixed() -> Vec<(Vec<Node>, Vec<(String, PSrc)>, RVal)> {
     let f = vec![txt("["), Node::Out(v("it"), vec![]), txt(":"), Node::Out(Expr::Var(Path::name("forloop").dot("index")), vec![]), txt("/"), Node::Out(Expr::Var(Path::name("forloop").dot("length")), vec![]), Node::Out(Expr::Var(Path::name("forloop").dot("last")), vec![]), txt("]")];
     let main = vec![Node::Render { name: Expr::str("f"), mode: RenderMode::For(Coll::Expr(v("xs")), "it".into()), args: vec![] }, Node::Render { name: Expr::str("f"), mode: RenderMode::For(Coll::Range(Expr::int(3), Expr::int(2)), "it".into()), args: vec![] }, txt(".")];
     out.push((main, vec![("f".to_string(), PSrc::Ast(f))], RVal::Object(vec![("xs".into(), RVal::Array(vec![s("u"), s("v"), s("w")]))])));
+    // one include/render tag whose name changes from pass to pass (and finally names nothing)
+    for (names, tag_is_include) in [(vec!["p", "q2", "p"], true), (vec!["q2", "p"], false), (vec!["p", "missing"], true), (vec!["p", "q2", "missing"], false)] {
+        let tag = if tag_is_include {
+            Node::Include { name: v("n"), args: vec![] }
+        } else {
+            Node::Render { name: v("n"), mode: RenderMode::Plain, args: vec![("a".into(), v("n"))] }
+        };
+        let main = vec![Node::For { var: "n".into(), coll: Coll::Expr(v("names")), limit: None, offset: None, reversed: false, body: vec![txt("("), tag, txt(")")], else_: None }];
+        let pp = vec![txt("P:"), Node::Out(v("a"), vec![])];
+        let qq = vec![txt("Q:"), Node::Out(v("a"), vec![]), Node::Assign("a".into(), Expr::str("set-by-q2"), vec![])];
+        let d = RVal::Object(vec![("a".into(), s("da")), ("names".into(), RVal::Array(names.iter().map(|n| s(n)).collect()))]);
+        out.push((main, vec![("p".to_string(), PSrc::Ast(pp)), ("q2".to_string(), PSrc::Ast(qq))], d));
+    }
     // missing / broken on executed paths
     for (tag_is_include, name) in [(true, "missing"), (false, "missing"), (true, "broken"), (false, "broken")] {
         let tag = if tag_is_include { Node::Include { name: Expr::str(name), args: vec![] } } else { Node::Render { name: Expr::str(name), mode: RenderMode::Plain, args: vec![] } };
